@@ -39,6 +39,9 @@ def correspondence(rep, ctx, ncases=None):
         "decay(), cumulative_decays() and branching_fraction() outputs within the float bound, SF / sum(b) != 1 chains "
         "included by the deep-chain stratum. distinct = distinct (class, inventory, time)")
     cases = []
+    # long chains at times short against the chain head (deep progeny many orders of magnitude below the parent): HP class
+    for parent, t_, tu_ in (("Th-232", 1.0, "s"), ("U-238", 1.0, "h")) + ((("Np-237", 10.0, "s"), ("U-235", 1.0, "m")) if thorough else ()):
+        cases.append(("hp", {parent: 1.0}, "num", t_, tu_))
     for k in range(ncases + nhp):
         contents, unit = gen.inventory(max_n=3 if k >= ncases else 6)
         idxs = [view.index[rd.utils.parse_nuclide_str(n)] for n in contents]
